@@ -43,6 +43,10 @@ def put(d, tag, body):
     if a not in d:
         return d
     return d[:d.index(a) + len(a)] + "\n" + body + "\n" + d[d.index(b):]
-d = put(d, "STATUS", status); d = put(d, "SEEDED", seeded)
+detail = []
+for pid in sorted(claimed):
+    c = claimed[pid]
+    detail.append(f"**{pid}** - technique: {c.get('technique','')}\n\n{c['level_claimed']['text']}\n\n*Assumed / trusted:* {c['level_note']}\n")
+d = put(d, "STATUS", status); d = put(d, "SEEDED", seeded); d = put(d, "DETAIL", "\n".join(detail))
 open(f"{V}/DESIGN.md", "w").write(d)
 print(status)
